@@ -27,10 +27,10 @@ Qed.
 
 (* ------------------------------------------------------------------ the computations *)
 Lemma explore_universe_5 : forallb (explore 5) universe = true.
-Proof. vm_compute. reflexivity. Qed.
+Proof. vm_cast_no_check (eq_refl true). Qed.
 
 Lemma explore_small_10 : forallb (explore 10) (filter small_graph universe) = true.
-Proof. vm_compute. reflexivity. Qed.
+Proof. vm_cast_no_check (eq_refl true). Qed.
 
 Theorem bounded_universe : forall E w, In (E, w) universe ->
   forall evs, (length evs <= 5)%nat -> Forall (fun e => In e (candidates E)) evs ->
@@ -46,7 +46,7 @@ Theorem bounded_small : forall E w, In (E, w) universe -> small_graph (E, w) = t
 Proof.
   intros E w Hin Hs. apply explore_sound.
   pose proof explore_small_10 as H. rewrite forallb_forall in H. apply H.
-  apply filter_In. split; assumption.
+  apply (proj2 (filter_In small_graph (E, w) universe)). split; assumption.
 Qed.
 
 (* what check_path gives, as separate facts *)
@@ -59,14 +59,276 @@ Lemma check_path_facts E w evs :
   /\ (stopped s1 = true \/ exists e, In e (candidates E) /\ en_single E s1 e = true)
   /\ last_step_ok E s0 evs = true
   /\ valid_prefix (e_parent E) ps = true
-  /\ (stopped s1 = true -> valid (e_parent E) ps = true).
+  /\ (stopped s1 = true -> valid (e_parent E) ps = true)
+  /\ creation_ok E (concat outs) = true.
 Proof.
   unfold check_path. destruct (init E w) as [[ig is_] s0].
   destruct (run_batches E s0 (single evs)) as [s1 outs]. cbn zeta.
-  intro H. repeat (apply andb_true_iff in H as [H ?]).
-  repeat split; auto.
-  - match goal with X : (stopped s1 || _) = true |- _ => apply orb_true_iff in X as [X|X] end.
-    + left; exact X.
-    + right. apply existsb_exists in X. exact X.
-  - intro Hs. rewrite Hs in *. assumption.
+  intro H.
+  apply andb_true_iff in H as [H H6]. apply andb_true_iff in H as [H H5].
+  apply andb_true_iff in H as [H H4]. apply andb_true_iff in H as [H H3].
+  apply andb_true_iff in H as [H1 H2].
+  split; [exact H1|]. split.
+  - apply orb_true_iff in H2 as [X|X]; [left; exact X|].
+    right. apply existsb_exists in X. exact X.
+  - split; [exact H3|]. split; [exact H4|]. split.
+    + intro Hs. rewrite Hs in H5. exact H5.
+    + exact H6.
+Qed.
+
+(* ------------------------------------------------------------------ the stopped flag is only set by run_batch *)
+Lemma fold_pres {A S} (P : S -> Prop) (f : S -> A -> S) l :
+  (forall s a, P s -> P (f s a)) -> forall s, P s -> P (fold_left f l s).
+Proof. intro Hf. induction l as [|a l IH]; intros s H; cbn; auto. Qed.
+
+Lemma stopped_start_task t s : stopped (start_task t s) = stopped s.
+Proof. unfold start_task. destruct (ahas t (tnodes s)); reflexivity. Qed.
+
+Lemma stopped_start_group g s : stopped (start_group g s) = stopped s.
+Proof.
+  unfold start_group. destruct (aget g (gnodes s)) as [n|]; [|reflexivity].
+  apply (fold_pres (fun x => stopped x = stopped s)); [|reflexivity].
+  intros s' a H. rewrite stopped_start_task. exact H.
+Qed.
+
+Lemma stopped_start_new_work ngs nss s : stopped (start_new_work ngs nss s) = stopped s.
+Proof.
+  unfold start_new_work.
+  apply (fold_pres (fun x => stopped x = stopped s)).
+  - intros s' a H. exact H.
+  - apply (fold_pres (fun x => stopped x = stopped s)); [|reflexivity].
+    intros s' a H. rewrite stopped_start_group. exact H.
+Qed.
+
+Lemma stopped_add_task E t s : stopped (add_task E t s) = stopped s.
+Proof.
+  unfold add_task. apply (fold_pres (fun x => stopped x = stopped s)); [|reflexivity].
+  intros s' g H. destruct (aget g (gnodes s')) as [n|]; [|exact H].
+  match goal with |- context [if ?c then _ else _] => destruct c end;
+    rewrite ?stopped_start_task; exact H.
+Qed.
+
+Lemma stopped_integrate E w pt s : stopped (snd (integrate E w pt s)) = stopped s.
+Proof.
+  unfold integrate.
+  destruct (match w_groups w with [] => _ | _ => _ end) as [nr gn].
+  assert (H1 : stopped (fold_left (fun s t => add_task E t s) (w_tasks w) (set_gnodes gn s)) = stopped s).
+  { apply (fold_pres (fun x => stopped x = stopped s)); [|reflexivity].
+    intros s' a H. rewrite stopped_add_task. exact H. }
+  destruct (w_streams w) as [|x xs]; [exact H1|].
+  unfold add_streams. destruct pt as [t|]; [|exact H1].
+  destruct (aget t (tnodes _)); exact H1.
+Qed.
+
+Lemma stopped_remove_task E t s : stopped (remove_task E t s) = stopped s.
+Proof. reflexivity. Qed.
+
+Lemma stopped_collect E n vals nss s :
+  stopped (snd (collect_completed E n (vals, nss, s))) = stopped s.
+Proof.
+  unfold collect_completed.
+  apply (fold_pres (fun st : list N * list N * state => stopped (snd st) = stopped s)); [|reflexivity].
+  intros [[v x] s'] t H. cbn in H |- *. destruct (aget t (tnodes s')); exact H.
+Qed.
+
+Lemma stopped_prune E flush : forall fuel gs ne vals nss s,
+  stopped (snd (prune fuel E flush gs (ne, vals, nss, s))) = stopped s.
+Proof.
+  induction fuel as [|f IH]; intros gs ne vals nss s; cbn [prune].
+  - destruct gs; reflexivity.
+  - apply (fold_pres (fun st : list N * list N * list N * state => stopped (snd st) = stopped s)); [|reflexivity].
+    intros [[[ne' v'] x'] s'] g H. cbn in H.
+    destruct (aget g (gnodes s')) as [n|]; [|exact H].
+    destruct (gn_pending n); [|exact H].
+    destruct flush; [destruct (gn_children n) as [|c cs]|].
+    + rewrite IH. exact H.
+    + pose proof (stopped_collect E n v' x' (set_gnodes (adel g (gnodes s')) s')) as Hc.
+      destruct (collect_completed E n _) as [[v1 x1] s2]. rewrite IH. cbn in Hc. rewrite Hc. exact H.
+    + rewrite IH. exact H.
+Qed.
+
+Lemma stopped_prune_groups E gs s : stopped (snd (prune_groups E gs s)) = stopped s.
+Proof.
+  unfold prune_groups.
+  pose proof (stopped_prune E false (S (length (gnodes s))) gs [] [] [] s) as H.
+  destruct (prune _ E false gs _) as [[[ne v] x] s1]. exact H.
+Qed.
+
+Lemma stopped_remove_group E : forall fuel g n s, stopped (remove_group fuel E g n s) = stopped s.
+Proof.
+  induction fuel as [|f IH]; intros g n s; cbn [remove_group]; [reflexivity|].
+  apply (fold_pres (fun x => stopped x = stopped s)).
+  - intros s' c H. destruct (aget c (gnodes s')); [rewrite IH|]; exact H.
+  - apply (fold_pres (fun x => stopped x = stopped s)); [|reflexivity].
+    intros s' t H. destruct (forallb _ _); exact H.
+Qed.
+
+Lemma stopped_finish E g n s : stopped (snd (finish_group_success E g n s)) = stopped s.
+Proof.
+  unfold finish_group_success.
+  pose proof (stopped_collect E n [] [] (set_gnodes (adel g (gnodes s)) s)) as H1.
+  destruct (collect_completed E n _) as [[v0 n0] s2].
+  pose proof (stopped_prune E true (S (length (gnodes s2))) (gn_children n) [] v0 n0 s2) as H2.
+  destruct (prune _ E true _ _) as [[[ngs vals] nss] s3]. cbn in *. congruence.
+Qed.
+
+Lemma stopped_task_success E t s : stopped (snd (task_success E t s)) = stopped s.
+Proof.
+  unfold task_success.
+  set (s0 := set_settled _ s).
+  set (s1 := match aget t (tnodes s0) with Some tn => _ | None => s0 end).
+  assert (H1 : stopped s1 = stopped s) by (subst s1; destruct (aget t (tnodes s0)); reflexivity).
+  pose proof (stopped_integrate E (twork E t) (Some t) s1) as H2.
+  destruct (integrate E (twork E t) (Some t) s1) as [[a b] s2]. cbn in H2.
+  match goal with |- context [fold_left ?f (tgroups E t) s2] => set (s2' := fold_left f (tgroups E t) s2) end.
+  assert (H3 : stopped s2' = stopped s).
+  { subst s2'. apply (fold_pres (fun x => stopped x = stopped s)); [|congruence].
+    intros s' g H. destruct (aget g (gnodes s')); exact H. }
+  match goal with |- context [fold_left ?f ?l (?e0, ?n1, ?n2, s2')] =>
+    assert (H4 : stopped (snd (fold_left f l (e0, n1, n2, s2'))) = stopped s) end.
+  { apply (fold_pres (fun st : list wqevent * list N * list N * state => stopped (snd st) = stopped s)); [|exact H3].
+    intros [[[e' g'] x'] s'] g H. cbn in H.
+    destruct (aget g (gnodes s')) as [n|]; [|exact H].
+    destruct (memN g (roots s') && Nat.eqb (gn_pending n) 0); [|exact H].
+    pose proof (stopped_finish E g n s') as Hf.
+    destruct (finish_group_success E g n s') as [[[e cg] cs] s'']. cbn in Hf |- *. congruence. }
+  match goal with |- context [fold_left ?f ?l ?i] => destruct (fold_left f l i) as [[[evs ngs] nss] s3] end.
+  cbn in H4 |- *. rewrite stopped_start_new_work. exact H4.
+Qed.
+
+Lemma stopped_task_failure E t s : stopped (snd (task_failure E t s)) = stopped s.
+Proof.
+  unfold task_failure.
+  apply (fold_pres (fun st : list wqevent * state => stopped (snd st) = stopped s)); [|reflexivity].
+  intros [evs s'] g H. cbn in H. destruct (aget g (gnodes s')) as [n|]; [|exact H].
+  cbn. unfold remove_group_top. rewrite stopped_remove_group. exact H.
+Qed.
+
+Lemma stopped_stream_items E x n b s : stopped (snd (stream_items E x n b s)) = stopped s.
+Proof.
+  unfold stream_items.
+  match goal with |- context [fold_left ?f ?l (?a0, ?b0, ?s0)] =>
+    assert (H : stopped (snd (fold_left f l (a0, b0, s0))) = stopped s) end.
+  { apply (fold_pres (fun st : list N * list N * state => stopped (snd st) = stopped s)); [|reflexivity].
+    intros [[a' b'] s'] w H. cbn in H.
+    pose proof (stopped_integrate E w None s') as Hi.
+    destruct (integrate E w None s') as [[ig is_] s1]. cbn in Hi.
+    pose proof (stopped_prune_groups E ig s1) as Hp.
+    destruct (prune_groups E ig s1) as [ne s2]. cbn in Hp |- *.
+    rewrite stopped_start_new_work. congruence. }
+  match goal with |- context [fold_left ?f ?l ?i] => destruct (fold_left f l i) as [[ngs nss] s1] end.
+  cbn in H. destruct b; cbn; exact H.
+Qed.
+
+Lemma stopped_step E s e : stopped (fst (step E s e)) = stopped s.
+Proof.
+  destruct e; cbn [step].
+  - pose proof (stopped_task_success E t s). destruct (task_success E t s); exact H.
+  - pose proof (stopped_task_failure E t s). destruct (task_failure E t s); exact H.
+  - pose proof (stopped_stream_items E s0 n stopped0 s). destruct (stream_items E s0 n stopped0 s); exact H.
+  - destruct (memN _ _); reflexivity.
+  - reflexivity.
+Qed.
+
+(* ------------------------------------------------------------------ termination exactly once *)
+Definition is_term (e : wqevent) : bool := match e with Termination => true | _ => false end.
+Definition no_term (l : list wqevent) : bool := forallb (fun e => negb (is_term e)) l.
+
+Lemma no_term_app a b : no_term (a ++ b) = no_term a && no_term b.
+Proof. unfold no_term. apply forallb_app. Qed.
+
+Lemma fold_no_term {A S} (f : S -> A -> S) (ev : S -> list wqevent) l : forall s0,
+  no_term (ev s0) = true ->
+  (forall s a, no_term (ev s) = true -> no_term (ev (f s a)) = true) ->
+  no_term (ev (fold_left f l s0)) = true.
+Proof. induction l as [|a l IH]; intros s0 H0 Hf; cbn; auto. Qed.
+
+Lemma finish_no_term E g n s :
+  no_term (fst (fst (fst (finish_group_success E g n s)))) = true.
+Proof.
+  unfold finish_group_success.
+  destruct (collect_completed E n ([], [], set_gnodes (adel g (gnodes s)) s)) as [[v0 n0] s2].
+  destruct (prune _ E true (gn_children n) ([], v0, n0, s2)) as [[[ngs vals] nss] s3].
+  cbn. destruct vals; reflexivity.
+Qed.
+
+Lemma task_success_no_term E t s : no_term (fst (task_success E t s)) = true.
+Proof.
+  unfold task_success.
+  destruct (integrate E (twork E t) (Some t) _) as [[a b] s2].
+  match goal with |- context [fold_left ?f ?l (?e0, ?n1, ?n2, ?s0)] =>
+    pose proof (fold_no_term f (fun st => fst (fst (fst st))) l (e0, n1, n2, s0)) as H end.
+  match goal with |- context [fold_left ?f ?l ?i] => destruct (fold_left f l i) as [[[evs ngs] nss] s3] eqn:F end.
+  cbn. cbn in H. apply H; [reflexivity|].
+  intros [[[evs' ngs'] nss'] s'] g Hn. cbn in Hn |- *.
+  destruct (aget g (gnodes s')) as [n|]; [|exact Hn].
+  destruct (memN g (roots s') && Nat.eqb (gn_pending n) 0); [|exact Hn].
+  pose proof (finish_no_term E g n s') as Hf.
+  destruct (finish_group_success E g n s') as [[[e cg] cs] s'']. cbn in Hf |- *.
+  rewrite no_term_app, Hn, Hf. reflexivity.
+Qed.
+
+Lemma task_failure_no_term E t s : no_term (fst (task_failure E t s)) = true.
+Proof.
+  unfold task_failure.
+  match goal with |- context [fold_left ?f ?l (?e0, ?s0)] =>
+    pose proof (fold_no_term f (fun st => fst st) l (e0, s0)) as H end.
+  cbn in H. apply H; [reflexivity|].
+  intros [evs s'] g Hn. cbn in Hn |- *.
+  destruct (aget g (gnodes s')) as [n|]; [|exact Hn].
+  cbn. rewrite no_term_app, Hn. reflexivity.
+Qed.
+
+Lemma stream_items_no_term E x n b s : no_term (fst (stream_items E x n b s)) = true.
+Proof.
+  unfold stream_items.
+  match goal with |- context [fold_left ?f ?l ?i] => destruct (fold_left f l i) as [[ngs nss] s1] end.
+  destruct b; reflexivity.
+Qed.
+
+Lemma step_no_term E s e : no_term (snd (step E s e)) = true.
+Proof.
+  destruct e; cbn [step].
+  - pose proof (task_success_no_term E t s). destruct (task_success E t s); exact H.
+  - pose proof (task_failure_no_term E t s). destruct (task_failure E t s); exact H.
+  - pose proof (stream_items_no_term E s0 n stopped s). destruct (stream_items E s0 n stopped s); exact H.
+  - destruct (memN _ _); reflexivity.
+  - reflexivity.
+Qed.
+
+Lemma steps_no_term E evs : forall s out,
+  no_term out = true ->
+  no_term (snd (fold_left (fun (st : state * list wqevent) e =>
+      let '(s, out) := st in let '(s', o) := step E s e in (s', out ++ o)) evs (s, out))) = true.
+Proof.
+  induction evs as [|e evs IH]; intros s out H; cbn; [exact H|].
+  pose proof (step_no_term E s e) as Hs. destruct (step E s e) as [s' o]. cbn in Hs.
+  apply IH. rewrite no_term_app, H, Hs. reflexivity.
+Qed.
+
+(* one batch: the termination event is emitted iff the batch leaves no root work; it is the last
+   event of the batch and it stops the queue *)
+Lemma run_batch_term E s evs s' out :
+  stopped s = false -> run_batch E s evs = (s', out) ->
+  (stopped s' = true /\ roots s' = [] /\ rstreams s' = [] /\
+     exists pre, out = pre ++ [Termination] /\ no_term pre = true)
+  \/ (stopped s' = false /\ no_term out = true /\ (roots s' <> [] \/ rstreams s' <> [])).
+Proof.
+  intros Hs H. unfold run_batch in H. rewrite Hs in H.
+  pose proof (steps_no_term E evs s [] eq_refl) as Hn.
+  destruct (fold_left _ evs (s, [])) as [s1 o1] eqn:F. cbn in Hn.
+  assert (Hst : stopped s1 = false).
+  { (* no step changes the stopped flag *)
+    clear Hn H. revert s o1 s1 Hs F.
+    generalize (@nil wqevent) as acc.
+    induction evs as [|e evs IH]; intros acc s o1 s1 Hs F; cbn in F.
+    - inversion F; subst; exact Hs.
+    - pose proof (stopped_step E s e) as Hp.
+      destruct (step E s e) as [sx o] eqn:St. eapply IH; [|exact F].
+      cbn in Hp. congruence. }
+  destruct (roots s1) eqn:R; destruct (rstreams s1) eqn:RS; inversion H; subst; clear H.
+  - left. cbn. repeat split; auto. exists o1. auto.
+  - right. repeat split; auto. right. rewrite RS. discriminate.
+  - right. repeat split; auto. left. rewrite R. discriminate.
+  - right. repeat split; auto. left. rewrite R. discriminate.
 Qed.
